@@ -157,6 +157,7 @@ package sourcewalk
 //@   assert at VisitService#0 methods: arg0 != nil && len(arg0.Methods) == len(sn.schema.Methods)
 //@   |   && (forall j int {arg0.Methods[j]} :: 0 <= j && j < len(arg0.Methods) ==> arg0.Methods[j] != nil && arg0.Methods[j].Schema == sn.schema.Methods[j]
 //@   |   && arg0.Methods[j].InputType == sn.schema.Methods[j].Name + "Request" && arg0.Methods[j].OutputType == outName(sn.schema.Methods[j]))
+//@   assert at VisitService#0 name: arg0.Name == *sn.schema.Name + "Service" && arg0.ServiceOptions == sn.schema.Options
 //@   assert at newObjectSchemaNode#0 request: arg2 != nil && arg2.Name == method.Name + "Request" && arg2.Properties == method.Request.Properties
 //@   assert at newObjectSchemaNode#1 response: arg2 != nil && arg2.Name == method.Name + "Response" && arg2.Properties == method.Response.Properties
 //@   loop 0 invariant len(methods) == $iter && sn.schema == old(sn.schema) && sn.schema.Methods == old(sn.schema.Methods)
@@ -210,3 +211,25 @@ package sourcewalk
 //@ func (SourceNode).child
 //@   opt assumed frame
 //@   modifies nothing
+
+// ---- topics (C16): the names the rest of the toolchain recognises ------------------------------------------
+// A topic becomes a service named CamelCase(topic)+"Topic" with one method per message, in order; a
+// message is named <Method>Message, where the method name is the declared one or, for a single-message
+// topic, the topic's own name.
+//@ func (TopicFileVisitor).VisitObject
+//@   opt assumed frame: the visitor writes only its own state
+//@   modifies ghost:visitorState
+//@ func (TopicFileVisitor).VisitTopic
+//@   opt assumed frame: the visitor writes only its own state
+//@   modifies ghost:visitorState
+//@ spec func topicMethodName(topic topicNode, i int) string = topic.methods[i].Name != nil ? *topic.methods[i].Name : topic.name
+//@ func acceptTopic
+//@   requires forall i int {topic.methods[i]} :: 0 <= i && i < len(topic.methods) ==> topic.methods[i] != nil && len(topic.prependFields) + len(topic.methods[i].Fields) < 2147483647
+//@   assert at VisitTopic#0 name: arg0 != nil && arg0.Name == camel(topic.name) + "Topic" && arg0.ServiceConfig == topic.serviceConfig
+//@   assert at VisitTopic#0 methods: len(arg0.Methods) == len(topic.methods) && (forall j int {arg0.Methods[j]} :: 0 <= j && j < len(arg0.Methods) ==> arg0.Methods[j] != nil && arg0.Methods[j].Name == topicMethodName(topic, j))
+//@   assert at newVirtualObjectNode#0 message: arg1 == nil && arg2 == methodName + "Message" && arg3 == method.Fields && methodName == topicMethodName(topic, idx)
+//@   assert at VisitObject#0 visited: arg0 == messageNode
+//@   loop 0 invariant len(methods) == $iter && fresh(methods)
+//@   loop 0 invariant forall j int {methods[j]} :: 0 <= j && j < $iter ==> methods[j] != nil && methods[j].Name == topicMethodName(topic, j)
+//@   loop 0 invariant forall i int {topic.methods[i]} :: 0 <= i && i < len(topic.methods) ==> topic.methods[i] != nil && topic.methods[i].Name == old(topic.methods[i].Name) && (topic.methods[i].Name != nil ==> *topic.methods[i].Name == old(*topic.methods[i].Name))
+//@   |   && len(topic.prependFields) + len(topic.methods[i].Fields) < 2147483647
